@@ -114,6 +114,9 @@ def run(chk) -> None:
     repo = chk.repo
     from ._engine import engine_view
     chk.extra["helpers_inlined"] = engine_view(repo)
+    # the replay at resume folds the whole recorded log (an idle release is exit-shaped but not an end)
+    from ._engine import replay_consumes_whole_log
+    replay_consumes_whole_log(chk, "C11.R4")
     m = repo.module(CL)
     methods = repo.methods(RUNNER)
 
@@ -129,7 +132,10 @@ def run(chk) -> None:
                 ok = False
                 if name == "__init__" and isinstance(src, ast.Name):
                     ok = src.id in [a.arg for a in fn.args.args]
-                if isinstance(src, ast.Call) and last(call_name(src)) in ("_reduce_tick", "rewind_in_progress"):
+                src_x = expand(src, st, depth=2) if isinstance(src, ast.Name) else src      # the reducer's result held in a local first
+                if isinstance(src_x, ast.Await):
+                    src_x = src_x.value
+                if isinstance(src_x, ast.Call) and last(call_name(src_x)) in ("_reduce_tick", "rewind_in_progress"):
                     ok = True
                 chk.ob("C11.R1", "the runner's state is assigned only from _reduce_tick / rewind_in_progress (or the constructor argument)", ok, m=m, node=st, fn=fn, instance=f"state-assign:{name}",
                        reason=f"self.state assigned from `{ast.unparse(src)[:60] if src is not None else None}`")
@@ -304,6 +310,20 @@ def run(chk) -> None:
             chk.ob("C11.R3", f"{deco} forwards {iface}.{n} to the wrapped adapter with its arguments", ok, m=md, node=f or md.classes[deco], fn=f, instance=f"forward:{deco}.{n}",
                    reason="method missing or not forwarded: a decorated adapter would silently fall back to the base-class default")
 
+    # ---------------------------------------------------------------- R4 the live loop rewinds exactly when the replay does: always
+    # rebuild_state_from_ticks / replay_ticks_stream rewind the recorded init state unconditionally before folding the ticks, so
+    # the live runner must rewind the same init state on *every* path into its loop (with or without a start event: a context
+    # continued with new input can still hold work that was in flight when the previous run ended)
+    rn_ = methods["run"]
+    cfgr_ = CFG(rn_)
+    rew_nodes = [n for n in cfgr_.nodes if n.ast is not None and any(isinstance(x, ast.Call) and last(call_name(x)) == "rewind_in_progress" for x in exprs_in_node(n))]
+    chk.floor("C11.R4", "rewind_in_progress calls in _ControlLoopRunner.run", len(rew_nodes), 1)
+    loop_heads = [n for n in cfgr_.nodes if n.kind == "test" and isinstance(n.ast, ast.While)]
+    skipping = [h for h in loop_heads if h in cfgr_.reach([cfgr_.entry], blocked=rew_nodes, labels_excluded=("exc", "cancel"))]
+    chk.ob("C11.R4", "the live loop rewinds the in-progress work of its init state on every path into the loop (as the replay of its log does)", not skipping and bool(loop_heads), m=m,
+           node=rew_nodes[0].ast if rew_nodes else rn_, fn=rn_, instance="live:rewind-always",
+           reason="the main loop of run() is reachable without rewind_in_progress: on that path the live state keeps the init state's in-progress entries as they were while "
+                  "rebuild_state_from_ticks (to_dict(), running_steps()) rewinds them — live and replayed state differ from the first tick on")
     # ---------------------------------------------------------------- R4 rebuild helpers use the same pipeline
     for ref in ("rebuild_state_from_ticks", "replay_ticks_stream"):
         fn = m.functions.get(ref)
@@ -400,6 +420,9 @@ def run(chk) -> None:
 
 
 TWINS = [
+    Twin("replay stops at the first exit-shaped command", CL_REL, "                exit_command = command\n    return ReplayResult(state=state, exit_command=exit_command)\n", "                exit_command = command\n        if exit_command is not None:\n            break\n    return ReplayResult(state=state, exit_command=exit_command)\n", "C11.R4"),
+    Twin("live loop rewinds only when there is no start event", CL_REL, "        self.state, commands = rewind_in_progress(self.state, start)\n", "        commands: list[WorkflowCommand] = []\n        if start_event is None:\n            self.state, commands = rewind_in_progress(self.state, start)\n", "C11.R4"),
+    Twin("benign: rewind result bound through a local pair", CL_REL, "        self.state, commands = rewind_in_progress(self.state, start)\n", "        rewound = rewind_in_progress(self.state, start)\n        self.state, commands = rewound\n", None),
     Twin("cancelled worker's slot freed in the live state through a local alias", CL_REL, "                    self._task_keys.pop(completed_task, None)\n",
          "                    _key = self._task_keys.pop(completed_task, None)\n                    if _key is not None and completed_task.cancelled():\n                        _ws = self.state.workers[_key[0]]\n                        _ws.in_progress = [w for w in _ws.in_progress if w.worker_id != _key[1]]\n", "C11.R1"),
     Twin("live state patched through a loop variable", CL_REL, "                    self._task_keys.pop(completed_task, None)\n",
